@@ -732,6 +732,7 @@ func (be *BigEval) step(st btState, ins ssa.Instruction) {
 		case "common.ModInverse":
 			st[x] = termFn("ModInverse", be.termOf(st, x.Call.Args[0]), be.termOf(st, x.Call.Args[1]))
 		}
+		be.inlineHelper(st, x)
 		m := bigMethod(x)
 		args := x.Call.Args
 		if m != "" || isBigIntPtrArgs(args) {
@@ -854,6 +855,72 @@ func (be *BigEval) step(st btState, ins ssa.Instruction) {
 			}
 			if strings.HasPrefix(d, "global:") {
 				be.Glob[d] = be.termOf(st, x.Val)
+			}
+		}
+	}
+}
+
+// inlineHelper: a call of an unexported helper of the same package that returns a *big.Int is given the term
+// the helper computes (parameters bound to the arguments), when all its non-nil returns agree on it.
+var inlineInProgress = map[*ssa.Function]bool{}
+
+func (be *BigEval) inlineHelper(st btState, x *ssa.Call) {
+	g := x.Call.StaticCallee()
+	if g == nil || g.Blocks == nil || g.Pkg == nil || be.Fn.Pkg != g.Pkg || g == be.Fn || inlineInProgress[g] {
+		return
+	}
+	if g.Object() == nil || g.Object().Exported() || isBigWrapperFn(g) || len(inlineInProgress) > 2 {
+		return
+	}
+	res := g.Signature.Results()
+	var idx []int
+	for k := 0; k < res.Len(); k++ {
+		if isBigIntPtr(res.At(k).Type()) {
+			idx = append(idx, k)
+		}
+	}
+	if len(idx) == 0 {
+		return
+	}
+	inlineInProgress[g] = true
+	defer delete(inlineInProgress, g)
+	var sub *BigEval
+	oldS := bindStructParams
+	bindStructParams = true
+	bindCall(x, g, func() { sub = be.P.bigEval(g) })
+	bindStructParams = oldS
+	for _, k := range idx {
+		var t Term
+		n := 0
+		agree := true
+		for _, b := range g.Blocks {
+			ret, ok := b.Instrs[len(b.Instrs)-1].(*ssa.Return)
+			if !ok || isNilConst(ret.Results[k]) {
+				continue
+			}
+			rt, ok := sub.Use[ret][ret.Results[k]]
+			if n := rt.opaqueName(); !ok || rt.Top || (n != "" && !(n[0] >= 'A' && n[0] <= 'Z' && strings.Contains(n, "("))) {
+				// (a helper that merely hands on a value it obtained keeps its call descriptor)
+				agree = false
+				break
+			}
+			if n > 0 && !rt.equal(t) {
+				agree = false
+				break
+			}
+			t = rt
+			n++
+		}
+		if !agree || n == 0 {
+			continue
+		}
+		if res.Len() == 1 {
+			st[x] = t
+			continue
+		}
+		for _, r := range referrersOf(x) {
+			if ex, ok := r.(*ssa.Extract); ok && ex.Index == k {
+				st[ex] = t
 			}
 		}
 	}
